@@ -45,6 +45,10 @@ CHECKS = {
    text="The real conversion functions and goal handlers are run on symbolic moment vectors (get_all_moments stubbed) and on a generic 3-atom law; central moments and cumulants are compared with their definitions (explicit polynomials, additivity, shift, homogeneity), the printed Markov and second-moment bounds are proved valid for every 3-atom law and threshold by QF_NRA queries, Gram-Charlier moments and the Cornish-Fisher polynomial are compared with the textbook for K <= 5, comb against Pascal's triangle for n <= 64, goal strings against their intended reading.",
    ref="DESIGN.md 3/C11", tech="symbolic-data execution + z3 identity / validity queries over generic finite laws and symbolic moment and cumulant vectors",
    note="Trusted: textbook formulas in checks/c11.py, z3. Bounded: orders <= 6, K <= 5, laws with <= 3 atoms, three tail programs with n <= 4/6. Known finding: c1 is reported as the mean."),
+ "C13": dict(cat="other",
+   text="The real get_func_moment / get_trig_moment / get_exp_moment run on a Dirac stub distribution at a symbolic point X; the returned term must equal X^a sin^b X cos^c X (resp. X^a exp(cX)) for all X, decided by z3 with (cos X, sin X) on the unit circle and exp X > 0, for all exponent triples up to a bound; mixing of Exp with Sin/Cos must be rejected; mgf existence regions and rejection outside them; constants; and end-to-end closed forms (exact mode) of programs whose functional arguments are finitely-valued draws, references or constants against the reference semantics.",
+   ref="DESIGN.md 3/C13", tech="symbolic-data execution on a Dirac stub + z3 over the unit-circle / positive-exponential abstraction; end-to-end z3 equivalence with sin/cos/exp of constants as algebraic atoms",
+   note="Trusted: linearity of expectation in the law (Dirac identities transfer given correct transforms, which C08 checks), z3. Bounded: (a,b,c) <= (2,3,3) quick / (3,4,4) thorough; six end-to-end programs, n <= 3/5. The 20-digit rounding of non-exact mode and end-to-end functionals of continuous draws are outside."),
 }
 NA_REASON = "check not built yet in this session (see DESIGN.md section 3 for the planned solver-based check)"
 
